@@ -815,7 +815,10 @@ func (f *tsspFile) LoadIdTimes(p *IdTimePairs) error {
 	}
 	fr := f.reader
 
-	if err := fr.LoadIdTimes(f.IsOrder(), p); err != nil {
+	// f.name.order is read directly: f.mu is already held shared here, and taking it again through
+	// IsOrder() deadlocks as soon as a writer (Rename of a file that is replaced while in use) waits
+	// between the two read locks.
+	if err := fr.LoadIdTimes(f.name.order, p); err != nil {
 		return err
 	}
 
